@@ -153,12 +153,54 @@ fn nesting_jobs() -> Vec<StateSpec> {
     out
 }
 
+/// Jobs on states with many bound names (40 .. 70): every DEFINE type adds a new name and an
+/// existing one is redefined; the complete binding table is part of the final state.
+fn binding_jobs() -> Vec<StateSpec> {
+    let mut out = vec![];
+    for n in [40usize, 47, 48, 49, 64, 70] {
+        for (ty, val) in [
+            ("INTEGER", ItemSpec::Int(7)),
+            ("FLOAT", ItemSpec::Float(1.5)),
+            ("BOOLEAN", ItemSpec::Bool(true)),
+            ("CODE", ItemSpec::List(vec![ItemSpec::instr("CODE.QUOTE"), ItemSpec::List(vec![ItemSpec::Int(1)])])),
+            ("EXEC", ItemSpec::instr("NOOP")),
+            ("INTVECTOR", ItemSpec::IVec(vec![1, 2])),
+            ("FLOATVECTOR", ItemSpec::FVec(vec![0.5])),
+            ("BOOLVECTOR", ItemSpec::BVec(vec![true])),
+        ] {
+            let mut s = StateSpec::default();
+            for i in 0..n {
+                s.bindings.insert(format!("b{}", i), ItemSpec::Int(i as i32));
+            }
+            let def = ItemSpec::Instr(format!("{}.DEFINE", ty));
+            // a new name, then a redefinition of an old one, then both are looked up
+            let mut prog = vec![];
+            for name in ["fresh", "b3"] {
+                if ty == "EXEC" {
+                    prog.extend(vec![ItemSpec::instr("NAME.QUOTE"), ItemSpec::name(name), def.clone(), val.clone()]);
+                } else if ty == "CODE" {
+                    prog.extend(vec![val.clone(), ItemSpec::instr("NAME.QUOTE"), ItemSpec::name(name), def.clone()]);
+                } else {
+                    prog.extend(vec![val.clone(), ItemSpec::instr("NAME.QUOTE"), ItemSpec::name(name), def.clone()]);
+                }
+            }
+            prog.extend(vec![ItemSpec::name("fresh"), ItemSpec::name("b3"), ItemSpec::name("b0"), ItemSpec::name(&format!("b{}", n - 1))]);
+            s.exec = vec![ItemSpec::List(prog)];
+            s.config.eval_push_limit = 100;
+            s.config.eval_time_limit = JOB_TIME_LIMIT_MS;
+            out.push(s);
+        }
+    }
+    out
+}
+
 /// deterministic job list; jobs whose monitored dry run leaves the resource envelope are dropped
 fn jobs(seed: u64, n: u64) -> Vec<StateSpec> {
     let mut all = program_jobs(seed, n);
     all.extend(sweep_jobs(seed, (n / 40).max(8)));
     all.extend(boundary_jobs(seed, (n / 80).max(4)));
     all.extend(nesting_jobs());
+    all.extend(binding_jobs());
     // dry-run filter for the sweep jobs as well (EXEC items may be code)
     all
 }
@@ -266,6 +308,8 @@ fn in_process(ctx: &Ctx, js: &[StateSpec]) -> (SubReport, Vec<String>) {
     }
     // (b) concurrently on T threads, each with its own instruction set and states
     for threads in [2usize, 4, 8, 16] {
+        // the coordinating thread only waits from here on: its last journal entry is not a running case
+        crate::supervise::journal_clear();
         let active = AtomicUsize::new(0);
         let max_active = AtomicUsize::new(0);
         let barrier = std::sync::Barrier::new(threads);
@@ -299,6 +343,8 @@ fn in_process(ctx: &Ctx, js: &[StateSpec]) -> (SubReport, Vec<String>) {
                                 }
                             }
                             active.fetch_sub(1, Ordering::SeqCst);
+                            // this thread is done: an old journal entry must not look like a stuck case
+                            crate::supervise::journal_clear();
                             out
                         })
                         .unwrap()
@@ -431,6 +477,14 @@ fn cli(ctx: &Ctx, n: u64) -> SubReport {
             }
         }
         let prog = tame(&draw(&strat, &mut r));
+        // every 25th program is a counted loop whose step count lies around 1000 (the front end
+        // has no step budget of its own: it runs until EXEC is empty)
+        let prog = if i % 25 == 7 {
+            let n = [90, 250, 331, 332, 333, 334, 335, 400][(i / 25 % 8) as usize];
+            ItemSpec::List(vec![ItemSpec::Int(n), ItemSpec::instr("INDEX.DEFINE"), ItemSpec::instr("EXEC.LOOP"), ItemSpec::List(vec![ItemSpec::Int(1), ItemSpec::instr("INTEGER.POP")]), ItemSpec::instr("INDEX.STACKDEPTH")])
+        } else {
+            prog
+        };
         // every third program has several top-level items (the order of the copy onto CODE shows)
         let text = match (&prog, i % 3) {
             (ItemSpec::List(v), 0) if v.len() >= 2 => v.iter().map(|x| x.render()).collect::<Vec<_>>().join(" ") + " CODE.LENGTH CODE.DUP",
@@ -440,7 +494,7 @@ fn cli(ctx: &Ctx, n: u64) -> SubReport {
         if text.contains('\0') {
             return;
         }
-        let lib = match guarded(|| library_final_stacks(&text, &bin, 200)) {
+        let lib = match guarded(|| library_final_stacks(&text, &bin, if i % 25 == 7 { 5000 } else { 200 })) {
             Ok(Some(x)) => x,
             _ => return, // not terminating within 200 steps (or panics: C01's subject)
         };
